@@ -656,7 +656,8 @@ Section AsmPerm.
           assert (Hndn2 : NoDup (map (fun kv : bytes * dm => keymap (fst kv)) m2)).
           { rewrite <- (map_map fst keymap). rewrite (F2_map_fst m m2 HR). rewrite map_map. exact Hndn. }
           pose proof (asm_entries_perm LRepr fs ss keymap m2 m' HP Hndn2 _ _ _ Hrun) as Hrun'.
-          rewrite asm_struct_map_unfold, inner_zero, Es, Hz. cbn [fst snd]. fold keymap. rewrite Hrun'. cbn [bind].
+          unfold keymap in Hrun'. cbn beta in Hrun'.
+          rewrite asm_struct_map_unfold, inner_zero, Es, Hz. cbn [fst snd]. rewrite Hrun'. cbn [bind].
           unfold finish. cbn [fst snd]. rewrite Hmiss.
           eexists. split; [reflexivity|].
           destruct (put_ok LRepr (TStruct n fs SRMap) s (GStruct gpost) Hl) as [Hok' Hden'].
